@@ -2,6 +2,7 @@
     parentheses, dead code. *)
 From Borno Require Import Base Num Unicode Token Lexer Ast Parser Value Eval Cli.
 From Borno Require Import EvalEqs ParserEqs ParserTotal EvalMeta EvalOrder LexerFacts LexerLayout NumInt NumFacts.
+From Borno Require Import Grammar.
 Open Scope N_scope.
 
 (* ------------------------------------------------------------------ *)
@@ -740,3 +741,338 @@ Proof.
 Qed.
 
 End LexemeRun.
+
+(* ------------------------------------------------------------------ *)
+(** * 5. Line numbers matter only in diagnostics *)
+
+Definition erase_clo (c : closure) : closure :=
+  mkClo (c_name c) (c_params c) (map erase_s (c_body c)) (c_env c).
+
+(** the same store with the line numbers in the stored function bodies erased *)
+Definition erase_st (s : state) : state :=
+  mkState (envs s) (arrs s) (objs s) (map erase_clo (funs s)) (out s) (inp s) (tick s).
+
+Definition erase_sig (g : signal) : signal :=
+  match g with
+  | SigNone => SigNone
+  | SigBreak _ => SigBreak 0
+  | SigContinue _ => SigContinue 0
+  | SigReturn _ v => SigReturn 0 v
+  end.
+
+(** the same outcome with every line number erased: the line of a diagnostic, the lines in
+    the final store's function bodies, and (through [h]) the line carried by a signal *)
+Definition erase_res {A} (h : A -> A) (r : res A) : res A :=
+  match r with
+  | Ok a s => Ok (h a) (erase_st s)
+  | Err e _ s => Err e 0 (erase_st s)
+  | Fuel => Fuel
+  | Stuck => Stuck
+  | Crash s => Crash (erase_st s)
+  end.
+
+Definition idv {A} (a : A) : A := a.
+
+Lemma erase_bind {A B} (h : A -> A) (g : B -> B) (r : res A) (k k' : A -> state -> res B) :
+  (forall a s, k' (h a) (erase_st s) = erase_res g (k a s)) ->
+  bind (erase_res h r) k' = erase_res g (bind r k).
+Proof. intros H. destruct r; simpl; try reflexivity. apply H. Qed.
+
+(** ** the store primitives commute with erasure *)
+
+Lemma env_lookup_erase n : forall rho x s, env_lookup n rho x (erase_st s) = env_lookup n rho x s.
+Proof.
+  induction n as [|n IH]; intros rho x s; simpl; [reflexivity|].
+  destruct (nth_error (envs s) rho) as [[b p]|]; [|reflexivity].
+  destruct (assoc x b); [reflexivity|]. destruct p; [apply IH|reflexivity].
+Qed.
+
+Lemma env_get_erase rho x s : env_get rho x (erase_st s) = env_get rho x s.
+Proof. unfold env_get. cbn [erase_st envs]. rewrite env_lookup_erase. reflexivity. Qed.
+
+Lemma env_get_here_erase rho x s : env_get_here rho x (erase_st s) = env_get_here rho x s.
+Proof. reflexivity. Qed.
+
+Lemma env_define_erase rho x v s :
+  env_define rho x v (erase_st s) = option_map erase_st (env_define rho x v s).
+Proof. unfold env_define. cbn [erase_st envs]. destruct (nth_error (envs s) rho) as [[b p]|]; reflexivity. Qed.
+
+Lemma env_assign_erase rho x v s :
+  env_assign rho x v (erase_st s) = option_map (option_map erase_st) (env_assign rho x v s).
+Proof.
+  unfold env_assign. cbn [erase_st envs]. rewrite env_lookup_erase.
+  destruct (env_lookup (S (length (envs s))) rho x s) as [[[q w]|]|]; try reflexivity.
+  rewrite env_define_erase. destruct (env_define q x v s); reflexivity.
+Qed.
+
+Lemma bind_params_erase act : forall ps vs s,
+  bind_params act ps vs (erase_st s) = option_map erase_st (bind_params act ps vs s).
+Proof.
+  induction ps as [|p ps IH]; intros vs s; simpl; [reflexivity|].
+  destruct vs as [|v vs]; [reflexivity|]. rewrite env_define_erase.
+  destruct (env_define act p v s) as [s1|]; simpl; [apply IH|reflexivity].
+Qed.
+
+Lemma get_arr_erase l s : get_arr l (erase_st s) = get_arr l s.
+Proof. reflexivity. Qed.
+Lemma get_obj_erase l s : get_obj l (erase_st s) = get_obj l s.
+Proof. reflexivity. Qed.
+Lemma get_fun_erase l s : get_fun l (erase_st s) = option_map erase_clo (get_fun l s).
+Proof. unfold get_fun. cbn [erase_st funs]. apply nth_error_map. Qed.
+
+Lemma text_in_erase n : forall s v, text_in n (erase_st s) v = text_in n s v.
+Proof.
+  induction n as [|n IH]; intros s v; [reflexivity|].
+  destruct v as [| | | |l|l|l|nv]; cbn [text_in]; try reflexivity.
+  - rewrite get_arr_erase. destruct (get_arr l s) as [vs|]; [|reflexivity]. f_equal.
+    induction vs as [|v vs IHv]; [reflexivity|].
+    destruct vs as [|v2 vs]; [apply IH|]. rewrite IH. destruct (text_in n s v); try reflexivity.
+    rewrite IHv. reflexivity.
+  - rewrite get_obj_erase. destruct (get_obj l s) as [ps|]; [|reflexivity]. f_equal.
+    induction ps as [|[k v] ps IHp]; [reflexivity|].
+    destruct ps as [|kv2 ps]; [rewrite IH; reflexivity|]. rewrite IH. destruct (text_in n s v); try reflexivity.
+    rewrite IHp. reflexivity.
+  - rewrite get_fun_erase. destruct (get_fun l s) as [c|]; reflexivity.
+Qed.
+
+Lemma text_of_erase s v : text_of (erase_st s) v = text_of s v.
+Proof. unfold text_of, print_fuel. cbn [erase_st arrs objs]. destruct v; try reflexivity; apply text_in_erase. Qed.
+
+Lemma alloc_env_erase p s :
+  alloc_env p (erase_st s) = let '(r, s1) := alloc_env p s in (r, erase_st s1).
+Proof. reflexivity. Qed.
+Lemma alloc_arr_erase vs s :
+  alloc_arr vs (erase_st s) = let '(r, s1) := alloc_arr vs s in (r, erase_st s1).
+Proof. reflexivity. Qed.
+Lemma alloc_obj_erase ps s :
+  alloc_obj ps (erase_st s) = let '(r, s1) := alloc_obj ps s in (r, erase_st s1).
+Proof. reflexivity. Qed.
+Lemma alloc_fun_erase c s :
+  alloc_fun (erase_clo c) (erase_st s) = let '(r, s1) := alloc_fun c s in (r, erase_st s1).
+Proof. unfold alloc_fun, erase_st. cbn [funs envs arrs objs out inp tick]. rewrite map_length, map_app. reflexivity. Qed.
+Lemma set_arr_erase l vs s : set_arr l vs (erase_st s) = erase_st (set_arr l vs s).
+Proof. reflexivity. Qed.
+Lemma set_obj_erase l ps s : set_obj l ps (erase_st s) = erase_st (set_obj l ps s).
+Proof. reflexivity. Qed.
+Lemma emit_erase ev s : emit ev (erase_st s) = erase_st (emit ev s).
+Proof. reflexivity. Qed.
+
+Section Erase.
+Variable libm : N -> f64 -> f64 -> f64.
+Variable clock : f64.
+Variable sched : N -> list (list N * value) -> list (list N * value).
+
+Notation eval := (Eval.eval libm clock sched).
+Notation eval_list := (Eval.eval_list libm clock sched).
+Notation eval_props := (Eval.eval_props libm clock sched).
+Notation exec := (Eval.exec libm clock sched).
+Notation exec_var := (Eval.exec_var libm clock sched).
+Notation exec_vars := (Eval.exec_vars libm clock sched).
+Notation exec_list := (Eval.exec_list libm clock sched).
+Notation exec_while := (Eval.exec_while libm clock sched).
+Notation exec_for := (Eval.exec_for libm clock sched).
+Notation run_stmts := (Eval.run_stmts libm clock sched).
+Notation call_native := (Eval.call_native libm clock sched).
+Notation binop := (Eval.binop libm).
+
+Lemma binop_erase s op a b : binop (erase_st s) op a b = binop s op a b.
+Proof. reflexivity. Qed.
+
+Definition erase_nres (r : nres) : nres :=
+  match r with NOk v s => NOk v (erase_st s) | NFail w => NFail w | NStuck => NStuck end.
+
+Ltac unerase :=
+  repeat match goal with
+  | |- context [get_arr ?l (erase_st ?s)] => change (get_arr l (erase_st s)) with (get_arr l s)
+  | |- context [get_obj ?l (erase_st ?s)] => change (get_obj l (erase_st s)) with (get_obj l s)
+  | |- context [inp (erase_st ?s)] => change (inp (erase_st s)) with (inp s)
+  | |- context [tick (erase_st ?s)] => change (tick (erase_st s)) with (tick s)
+  | |- context [arrs (erase_st ?s)] => change (arrs (erase_st s)) with (arrs s)
+  | |- context [objs (erase_st ?s)] => change (objs (erase_st s)) with (objs s)
+  | |- context [emit ?e (erase_st ?s)] => change (emit e (erase_st s)) with (erase_st (emit e s))
+  end.
+
+Lemma call_native_erase n vs s : call_native n vs (erase_st s) = erase_nres (call_native n vs s).
+Proof.
+  unfold Eval.call_native, math1, min_max, iterate_sorted, alloc_arr.
+  destruct n;
+  repeat (cbv beta iota; unerase;
+    match goal with
+    | |- context [match ?x with _ => _ end] => is_var x; destruct x
+    | |- context [match ?x with _ => _ end] => destruct x eqn:?
+    end); reflexivity.
+Qed.
+
+Lemma native_fail_state_erase n vs s : native_fail_state n vs (erase_st s) = erase_st (native_fail_state n vs s).
+Proof.
+  unfold native_fail_state. destruct n; try reflexivity.
+  repeat match goal with |- context [match ?x with _ => _ end] => destruct x end; reflexivity.
+Qed.
+
+Local Notation erase_kv := (fun kv : list N * expr => let '(k, v) := kv in (k, erase_e v)).
+
+Definition erase_at (f : nat) : Prop :=
+  (forall e rho s, eval f (erase_e e) rho (erase_st s) = erase_res idv (eval f e rho s)) /\
+  (forall es rho s, eval_list f (map erase_e es) rho (erase_st s) = erase_res idv (eval_list f es rho s)) /\
+  (forall ps rho s, eval_props f (map erase_kv ps) rho (erase_st s) = erase_res idv (eval_props f ps rho s)) /\
+  (forall rp st rho s, exec f rp (erase_s st) rho (erase_st s) = erase_res erase_sig (exec f rp st rho s)) /\
+  (forall d rho s, exec_var f (erase_d d) rho (erase_st s) = erase_res erase_sig (exec_var f d rho s)) /\
+  (forall ds rho s, exec_vars f (map erase_d ds) rho (erase_st s) = erase_res erase_sig (exec_vars f ds rho s)) /\
+  (forall rp ss rho s, exec_list f rp (map erase_s ss) rho (erase_st s) = erase_res erase_sig (exec_list f rp ss rho s)) /\
+  (forall rp c b rho s, exec_while f rp (erase_e c) (erase_s b) rho (erase_st s) =
+                        erase_res erase_sig (exec_while f rp c b rho s)) /\
+  (forall rp c inc b rho s, exec_for f rp (erase_e c) (option_map erase_e inc) (erase_s b) rho (erase_st s) =
+                            erase_res erase_sig (exec_for f rp c inc b rho s)).
+
+Ltac er_prims :=
+  unerase; cbn [erase_clo c_params c_name c_env c_body]; rewrite ?map_length;
+  repeat match goal with
+  | |- context [alloc_fun (mkClo ?n ?p (map erase_s ?b) ?c) (erase_st ?s)] =>
+      change (alloc_fun (mkClo n p (map erase_s b) c) (erase_st s))
+        with (alloc_fun (erase_clo (mkClo n p b c)) (erase_st s))
+  end;
+  rewrite ?env_get_erase, ?env_assign_erase, ?env_define_erase, ?get_fun_erase, ?text_of_erase,
+    ?call_native_erase, ?native_fail_state_erase, ?bind_params_erase, ?alloc_env_erase, ?alloc_arr_erase,
+    ?alloc_obj_erase, ?alloc_fun_erase;
+  repeat match goal with
+  | |- context [binop (erase_st ?s) ?op ?a ?b] => change (binop (erase_st s) op a b) with (binop s op a b)
+  | |- context [set_arr ?l ?v (erase_st ?s)] => change (set_arr l v (erase_st s)) with (erase_st (set_arr l v s))
+  | |- context [set_obj ?l ?v (erase_st ?s)] => change (set_obj l v (erase_st s)) with (erase_st (set_obj l v s))
+  | |- context [env_get_here ?r ?x (erase_st ?s)] => change (env_get_here r x (erase_st s)) with (env_get_here r x s)
+  end.
+
+Ltac er_bind :=
+  match goal with
+  | |- bind (erase_res _ _) _ = erase_res _ (bind _ _) =>
+      let a := fresh "a" in let s0 := fresh "s0" in
+      apply erase_bind; intros a s0
+  end.
+
+Ltac er_match :=
+  match goal with
+  | |- context [alloc_env ?p ?s] => destruct (alloc_env p s) eqn:?
+  | |- context [alloc_arr ?p ?s] => destruct (alloc_arr p s) eqn:?
+  | |- context [alloc_obj ?p ?s] => destruct (alloc_obj p s) eqn:?
+  | |- context [alloc_fun ?p ?s] => destruct (alloc_fun p s) eqn:?
+  | |- context [match option_map _ ?x with _ => _ end] => destruct x eqn:?; cbn [option_map]
+  | |- context [erase_nres ?x] => destruct x eqn:?; cbn [erase_nres]
+  | |- context [erase_sig ?x] => is_var x; destruct x; cbn [erase_sig]
+  | |- context [match ?x with _ => _ end] => is_var x; destruct x
+  | |- context [match ?x with _ => _ end] => destruct x eqn:?
+  end.
+
+Ltac er_ih := repeat match goal with H : forall _, _ |- _ => rewrite H end.
+
+Ltac er_for :=
+  match goal with
+  | H : _ |- exec_for _ ?rp (erase_e ?c) (Some (erase_e ?e)) (erase_s ?b) ?rho (erase_st ?s) = _ =>
+      exact (H rp c (Some e) b rho s)
+  | H : _ |- exec_for _ ?rp (erase_e ?c) None (erase_s ?b) ?rho (erase_st ?s) = _ =>
+      exact (H rp c None b rho s)
+  end.
+
+Ltac er_go :=
+  unfold lift_ores;
+  repeat (unfold idv; cbn [bind]; cbv beta iota; er_ih; er_prims; first [reflexivity | er_for | er_bind | er_match]).
+
+Lemma erase_all : forall f, erase_at f.
+Proof.
+  induction f as [|f IH].
+  - unfold erase_at. repeat split; intros; reflexivity.
+  - destruct IH as (Hev & Hel & Hep & Hex & Hxv & Hxvs & Hxl & Hxw & Hxf).
+    unfold erase_at.
+    split; [|split; [|split; [|split; [|split; [|split; [|split; [|split]]]]]]].
+    + intros e rho s. destruct e; cbn [erase_e]; rewrite !eval_S; er_go.
+    + intros es rho s. destruct es; cbn [map]; rewrite !eval_list_S; er_go.
+    + intros ps rho s. destruct ps as [|[k e] ps]; cbn [map]; rewrite !eval_props_S; er_go.
+    + intros rp st rho s. destruct st; cbn [erase_s]; rewrite !exec_S; er_go.
+    + intros d rho s. destruct d as [[x init] line]; cbn [erase_d]; rewrite !exec_var_S; er_go.
+    + intros ds rho s. destruct ds; cbn [map]; rewrite !exec_vars_S; er_go.
+    + intros rp ss rho s. destruct ss; cbn [map]; rewrite !exec_list_S; er_go.
+    + intros rp c b rho s. rewrite !exec_while_S; er_go.
+    + intros rp c inc b rho s. rewrite !exec_for_S; er_go.
+Qed.
+
+Lemma run_stmts_erase f rp : forall p s,
+  run_stmts f rp (map erase_s p) (erase_st s) = erase_res idv (run_stmts f rp p s).
+Proof.
+  destruct (erase_all f) as (_ & _ & _ & Hex & _).
+  induction p as [|st p IHp]; intros s; simpl; [reflexivity|].
+  rewrite Hex. apply erase_bind. intros sig s0. destruct sig; cbn [erase_sig]; try reflexivity. apply IHp.
+Qed.
+
+Lemma erase_st_init stdin : erase_st (init_state stdin) = init_state stdin.
+Proof. reflexivity. Qed.
+
+(** Evaluation reads line numbers only to put them into diagnostics (and into the
+    signals that become the stray-break/continue/return diagnostics): running the
+    tree with all line fields erased, in the store with the stored function bodies
+    erased, gives the same outcome -- same kind, same value, same output, input and
+    store, same error kind -- with line 0 in place of every line. *)
+Theorem lines_only_in_diagnostics f :
+  (forall e rho s, eval f (erase_e e) rho (erase_st s) = erase_res idv (eval f e rho s)) /\
+  (forall rp st rho s, exec f rp (erase_s st) rho (erase_st s) = erase_res erase_sig (exec f rp st rho s)) /\
+  (forall rp p s, run_stmts f rp (map erase_s p) (erase_st s) = erase_res idv (run_stmts f rp p s)).
+Proof.
+  destruct (erase_all f) as (Hev & _ & _ & Hex & _).
+  split; [exact Hev|]. split; [exact Hex|]. intros rp p s. apply run_stmts_erase.
+Qed.
+
+(** readable forms for expressions *)
+Corollary erased_eval_ok f e rho s v s1 :
+  eval f e rho s = Ok v s1 -> eval f (erase_e e) rho (erase_st s) = Ok v (erase_st s1).
+Proof. intros H. destruct (erase_all f) as (Hev & _). rewrite Hev, H. reflexivity. Qed.
+
+Corollary erased_eval_err f e rho s er l s1 :
+  eval f e rho s = Err er l s1 -> eval f (erase_e e) rho (erase_st s) = Err er 0 (erase_st s1).
+Proof. intros H. destruct (erase_all f) as (Hev & _). rewrite Hev, H. reflexivity. Qed.
+
+(** what two outcomes have in common when they are equal after erasure *)
+Definition same_but_lines {A} (r r' : res A) : Prop :=
+  match r, r' with
+  | Ok a s, Ok a' s' => a = a' /\ erase_st s = erase_st s'
+  | Err e _ s, Err e' _ s' => e = e' /\ erase_st s = erase_st s'
+  | Crash s, Crash s' => erase_st s = erase_st s'
+  | Fuel, Fuel => True
+  | Stuck, Stuck => True
+  | _, _ => False
+  end.
+
+Lemma erase_res_same {A} (r r' : res A) : erase_res idv r = erase_res idv r' -> same_but_lines r r'.
+Proof.
+  destruct r, r'; unfold idv; simpl; intros H; try discriminate H; try exact I;
+    remember (erase_st s) as x eqn:Ex; remember (erase_st s0) as y eqn:Ey; inversion H; auto.
+Qed.
+
+Lemma erase_st_obs s s' : erase_st s = erase_st s' ->
+  out s = out s' /\ inp s = inp s' /\ envs s = envs s' /\ arrs s = arrs s' /\ objs s = objs s' /\ tick s = tick s' /\
+  length (funs s) = length (funs s').
+Proof.
+  intros H.
+  split; [exact (f_equal out H)|]. split; [exact (f_equal inp H)|]. split; [exact (f_equal envs H)|].
+  split; [exact (f_equal arrs H)|]. split; [exact (f_equal objs H)|]. split; [exact (f_equal tick H)|].
+  pose proof (f_equal (fun x => length (funs x)) H) as L. cbn [erase_st funs] in L.
+  rewrite !map_length in L. exact L.
+Qed.
+
+(** Two programs that differ only in line fields behave alike: the same kind of outcome,
+    the same output, the same unread input, the same store up to the lines in stored
+    function bodies, the same error kind; only the line of the diagnostic may differ. *)
+Theorem lines_only_in_diagnostics_prog f rp p q stdin :
+  map erase_s p = map erase_s q ->
+  same_but_lines (run_stmts f rp p (init_state stdin)) (run_stmts f rp q (init_state stdin)).
+Proof.
+  intros H. apply erase_res_same.
+  rewrite <- !run_stmts_erase, H. reflexivity.
+Qed.
+
+End Erase.
+
+Print Assumptions layout_tokens_upto_lines.
+Print Assumptions scan1_number_script_invariant.
+Print Assumptions pprogram_lexeme_irrelevant.
+Print Assumptions lexeme_irrelevant_run.
+Print Assumptions group_same_result_iff.
+Print Assumptions dead_unreferenced_function.
+Print Assumptions lines_only_in_diagnostics.
+Print Assumptions lines_only_in_diagnostics_prog.
